@@ -103,7 +103,7 @@ def mutate(rng, a):
     n = rng.choice(ns)
     op = rng.choice(["dup-child", "bounds-equal-sum", "bounds-minus1-minus2", "reuse-id-children", "reuse-id-value", "reuse-id-sign",
                      "dash-ids", "leaf-named-like-compound", "self-reference", "cycle", "bounds-different",
-                     "generated-id-coincidence", "generated-id-coincidence"])
+                     "generated-id-coincidence", "generated-id-coincidence", "reuse-id-permuted-bounds"])
     leaf = lambda i, lo, hi: {"c": "var", "id": i, "lo": lo, "hi": hi}
     if op == "dup-child":
         n["args"].append(copy.deepcopy(rng.choice(n["args"])))
@@ -117,7 +117,7 @@ def mutate(rng, a):
             tgt["args"] = [x for x in tgt["args"] if not (x["c"] in ("var", "str") and x["id"] == "q")] + [leaf("q", *pair[1])]
         else:
             a = {"c": "All", "args": [a, {"c": "Any", "args": [leaf("q", *pair[1]), {"c": "str", "id": "zz"}]}]}
-    elif op.startswith("reuse-id"):
+    elif op.startswith("reuse-id") and op != "reuse-id-permuted-bounds":
         twin = {"c": "AtLeast", "v": 1, "args": [{"c": "str", "id": "u"}, {"c": "str", "id": "w"}], "id": "DUP", "sign": 1}
         other = copy.deepcopy(twin)
         if op == "reuse-id-children": other["args"] = [{"c": "str", "id": "u"}, {"c": "str", "id": "ww"}]
@@ -144,6 +144,14 @@ def mutate(rng, a):
                                   {"c": rng.choice(["Any", "All", "AtMost"]), "args": [two, S("zy")], **({"v": 1} if False else {})}]}
         if a["args"][2]["c"] == "AtMost":
             a["args"][2]["v"] = 1
+    elif op == "reuse-id-permuted-bounds":
+        # two sub-propositions with the same id, sign, value and child ids whose integer leaves swap bounds so that every
+        # per-leaf hash (hash(lo)+hash(hi)) and the node's bound sums are the same: equal under __eq__ and __hash__
+        b1, b2 = rng.choice([((0, 3), (1, 2)), ((-1, 2), (0, 1)), ((-2, 3), (-1, 2)), ((0, 5), (2, 3))])
+        cls = rng.choice(["Any", "All", "AtMost"])
+        mk = lambda p, q: {"c": cls, "args": [leaf("px", *p), leaf("py", *q)], "id": "DUP", **({"v": 1} if cls == "AtMost" else {})}
+        a = {"c": "All", "args": [a, {"c": "Any", "args": [mk(b1, b2), {"c": "str", "id": "zz"}]},
+                                  {"c": "Any", "args": [mk(b2, b1), {"c": "str", "id": "zy"}]}]}
     elif op == "dash-ids":
         a = {"c": "All", "args": [a, {"c": "Any", "args": [{"c": "str", "id": "b-c"}], "id": "A"}, {"c": "Any", "args": [{"c": "str", "id": "c"}], "id": "A-b"}]}
     elif op == "leaf-named-like-compound":
